@@ -79,3 +79,10 @@ package ice
 // two postconditions of (*CandidatePair).priority.
 //@ lemma C17 pairPrioMirror: forall x int, y int :: u32(x) && u32(y) ==> ite(true, pairPrio(x, y), pairPrio(y, x)) == ite(false, pairPrio(y, x), pairPrio(x, y))
 //@ lemma C17 pairPrioStrictInMin: forall g int, d int, g2 int, d2 int :: u32(g) && u32(d) && u32(g2) && u32(d2) && min(g,d) < min(g2,d2) && max(g,d) <= max(g2,d2) ==> pairPrio(g,d) < pairPrio(g2,d2)
+
+// The option is the only other writer of the offset: what the application configured is what the
+// priority formula sees, zero included (an offset of 0 ranks TCP candidates like UDP ones).
+//@ func WithTCPPriorityOffset$1
+//@   props C17
+//@   opt nosafety
+//@   site store tcpPriorityOffset#1 assert the-configured-offset-zero-included-is-taken-as-is: value == old(offset)
